@@ -53,7 +53,7 @@ func DrawSpecConfig(r *Rng, genNames []string, base string) SpecConfig {
 		PDeclTags:        onoff(0.9, 0.6),
 		PNameMismatch:    onoff(0.3, 0.5),
 		PNested:          onoff(0.4, 0.5),
-		PRootPkg:         0, // a package in the module root is a known non-convergence (see DESIGN §7)
+		PRootPkg:         onoff(0.3, 0.5),
 		PStd:             onoff(0.4, 0.5),
 		PPre:             onoff(0.6, 0.7),
 		Base:             base,
@@ -141,10 +141,14 @@ func DrawModule(r *Rng, cfg SpecConfig) *ModuleSpec {
 		dir := ""
 		for tries := 0; ; tries++ {
 			dir = Pick(r, dirNames)
+			if pi == 0 && r.P(cfg.PRootPkg) {
+				dir = "" // a package in the module root: gengo.sum lives in its directory
+				break
+			}
 			if pi > 0 && r.P(cfg.PNested) {
 				// nest below an earlier package directory
 				parent := m.Pkgs[r.Intn(pi)].Dir
-				dir = parent + "/" + Pick(r, []string{"sub", "internal", "x"})
+				dir = strings.TrimPrefix(parent+"/"+Pick(r, []string{"sub", "internal", "x"}), "/")
 			}
 			if !usedDirs[dir] {
 				break
@@ -156,6 +160,9 @@ func DrawModule(r *Rng, cfg SpecConfig) *ModuleSpec {
 		}
 		usedDirs[dir] = true
 		base := dir[strings.LastIndex(dir, "/")+1:]
+		if dir == "" {
+			base = "rootpkg"
+		}
 		p := &PkgSpec{Dir: dir, Name: base}
 		if r.P(cfg.PNameMismatch) {
 			p.Name = base + "pkg"
